@@ -22,6 +22,7 @@ import (
 	"fmt"
 	"io"
 	"net"
+	"net/netip"
 	"os"
 	"os/signal"
 	"path/filepath"
@@ -35,6 +36,7 @@ import (
 	"time"
 
 	"github.com/talostrading/sonic"
+	"github.com/talostrading/sonic/multicast"
 	"github.com/talostrading/sonic/sonicerrors"
 	"golang.org/x/sys/unix"
 )
@@ -54,6 +56,8 @@ type loopObj struct {
 	timer  *sonic.Timer
 	ln     sonic.Listener
 	pc     sonic.PacketConn
+	mp     *multicast.UDPPeer   // mpeer
+	sab    []int                // descriptors held by a sabotage
 	peer   net.Conn             // tcp/adapter peer
 	peerFd int                  // fifo peer end (-1 if closed)
 	peerPC *net.UDPConn         // packet peer
@@ -143,7 +147,7 @@ func (lw *loopWorld) runnable(needOne bool) (bool, time.Duration) {
 				lw.peer([]string{"peer", strconv.Itoa(op.obj), "write", "300"})
 			case "listener":
 				lw.peer([]string{"peer", strconv.Itoa(op.obj), "connect"})
-			case "packet":
+			case "packet", "mpeer":
 				lw.peer([]string{"peer", strconv.Itoa(op.obj), "send", "8"})
 			}
 		case "timer":
@@ -378,6 +382,8 @@ func (lw *loopWorld) exec(f []string) {
 			err = o.ln.Close()
 		case "packet":
 			err = o.pc.Close()
+		case "mpeer":
+			err = o.mp.Close()
 		case "timer":
 			err = o.timer.Close()
 		}
@@ -460,6 +466,25 @@ func (lw *loopWorld) exec(f []string) {
 		lw.keep = append(lw.keep, b)
 		re := lw.chainNext(f)
 		o := lw.objs[k]
+		if o.kind == "mpeer" {
+			o.mp.AsyncRead(b, func(err error, m int, from netip.AddrPort) {
+				mm := m
+				if mm < 0 || mm > len(b) {
+					mm = 0
+				}
+				fromOK := "none"
+				if from.IsValid() && o.peerPC != nil {
+					if ap, ok := o.peerPC.LocalAddr().(*net.UDPAddr); ok && int(from.Port()) == ap.Port {
+						fromOK = "peer"
+					} else {
+						fromOK = "other"
+					}
+				}
+				lw.entered(id, fmt.Sprintf("%s n=%d data=%s from=%s", errClass(err), m, hexOrDash(b[:mm]), fromOK), re)
+			})
+			lw.ev("ret")
+			return
+		}
 		o.pc.AsyncReadFrom(b, func(err error, m int, from net.Addr) {
 			mm := m
 			if mm < 0 || mm > len(b) {
@@ -488,10 +513,44 @@ func (lw *loopWorld) exec(f []string) {
 		}
 		re := lw.chainNext(f)
 		o := lw.objs[k]
+		if o.kind == "mpeer" {
+			ap := o.peerPC.LocalAddr().(*net.UDPAddr)
+			o.mp.AsyncWrite(b, netip.AddrPortFrom(netip.AddrFrom4([4]byte{127, 0, 0, 1}), uint16(ap.Port)), func(err error, m int) {
+				lw.entered(id, fmt.Sprintf("%s n=%d", errClass(err), n), re)
+			})
+			lw.ev("ret")
+			return
+		}
 		o.pc.AsyncWriteTo(b, o.peerPC.LocalAddr(), func(err error) {
 			lw.entered(id, fmt.Sprintf("%s n=%d", errClass(err), n), re)
 		})
 		lw.ev("ret")
+	case "wdeadline":
+		// a write deadline on the adapted net.Conn: a large write then fails half way (bytes moved and an error)
+		if o := lw.objs[atoi(f[1])]; o != nil && o.nc != nil {
+			_ = o.nc.SetWriteDeadline(time.Now().Add(time.Duration(atoi(f[2])) * loopTick))
+		}
+	case "sabotage":
+		// the descriptor is closed underneath the object and its number reused (dup2 of the write end of a full pipe):
+		// epoll forgets the old registration, later EPOLL_CTL_MOD/DEL for this number fail, writes would block
+		o := lw.objs[atoi(f[1])]
+		if o == nil || o.closed || (o.kind != "fifo" && o.kind != "tcp") {
+			return
+		}
+		var p [2]int
+		if err := syscall.Pipe2(p[:], syscall.O_NONBLOCK|syscall.O_CLOEXEC); err != nil {
+			return
+		}
+		junk := make([]byte, 4096)
+		for {
+			if _, err := syscall.Write(p[1], junk); err != nil {
+				break
+			}
+		}
+		lw.ev("call peer %s other d=%d", f[1], lw.depth)
+		err := syscall.Dup2(p[1], lw.rawFd(o))
+		o.sab = append(o.sab, p[0], p[1])
+		lw.ev("ret %s", map[bool]string{true: "ok", false: "fail"}[err == nil])
 	case "setdisp":
 		lw.ev("call %s d=%d", call, lw.depth)
 		lw.ioc.Dispatched = atoi(f[1])
@@ -609,6 +668,8 @@ func (lw *loopWorld) rawFd(o *loopObj) int {
 		return o.ln.RawFd()
 	case "packet":
 		return o.pc.RawFd()
+	case "mpeer":
+		return o.mp.NextLayer().RawFd()
 	}
 	return -1
 }
@@ -717,7 +778,13 @@ func (lw *loopWorld) peer(f []string) {
 			b[i] = streamByte(k, o.rxOff+i)
 		}
 		o.rxOff += n
-		if _, err := o.peerPC.WriteTo(b, o.pc.LocalAddr()); err != nil {
+		var dst net.Addr
+		if o.kind == "mpeer" {
+			dst = &net.UDPAddr{IP: net.IPv4(127, 0, 0, 1), Port: o.mp.LocalAddr().Port}
+		} else {
+			dst = o.pc.LocalAddr()
+		}
+		if _, err := o.peerPC.WriteTo(b, dst); err != nil {
 			res = "fail"
 		} else if !o.closed {
 			waitReady(lw.rawFd(o), unix.POLLIN, 200)
@@ -792,7 +859,7 @@ func (lw *loopWorld) finish() {
 					if round%4 == 0 {
 						lw.peer([]string{"peer", strconv.Itoa(op.obj), "connect"})
 					}
-				case "packet":
+				case "packet", "mpeer":
 					if round%4 == 0 {
 						lw.peer([]string{"peer", strconv.Itoa(op.obj), "send", "8"})
 					}
@@ -939,6 +1006,17 @@ func (lw *loopWorld) newObj(k int, kind string) string {
 			return "fail-peer"
 		}
 		o.peerPC = p
+	case "mpeer":
+		mp, err := multicast.NewUDPPeer(lw.ioc, "udp", "127.0.0.1:0")
+		if err != nil {
+			return "fail-mpeer"
+		}
+		o.mp = mp
+		p, err := net.ListenUDP("udp", &net.UDPAddr{IP: net.IPv4(127, 0, 0, 1)})
+		if err != nil {
+			return "fail-peer"
+		}
+		o.peerPC = p
 	default:
 		return "fail-kind"
 	}
@@ -991,8 +1069,13 @@ func (lw *loopWorld) cleanup() {
 					_ = o.ln.Close()
 				case "packet":
 					_ = o.pc.Close()
+				case "mpeer":
+					_ = o.mp.Close()
 				}
 			})
+		}
+		for _, fd := range o.sab {
+			_ = syscall.Close(fd)
 		}
 		if o.nc != nil {
 			// the adapter closed the descriptor itself; closing the net.Conn again would hit a foreign descriptor
@@ -1419,6 +1502,36 @@ func loopEnum(args []string, w *bufio.Writer) {
 	} {
 		emit("obj 1 timer", "prog 11 "+body, "prog 12 tcancel 1", "sched 1 rep 1 op=11", "sleep 2", "poll", "pending", "scheduled 1", "sleep 3", "poll", "pending",
 			"sleep 3", "poll", "pending", "scheduled 1", "tcancel 1", "pending")
+	}
+	// 7. chains that hop between objects: the limit bounds the shared stack, not each object
+	hops := []struct{ setup, first, then string }{
+		{"peer 1 write 200", "read 1 1 op=+ chain=20", "recvfrom_3_8_op=+_chain=25"},
+		{"peer 1 write 200", "read 1 1 op=+ chain=20", "sendto_3_4_op=+_chain=25"},
+		{"", "recvfrom 3 8 op=+ chain=20", "recvfrom_5_8_op=+_chain=25"},
+		{"", "recvfrom 3 8 op=+ chain=20", "read_4_1_op=+_chain=25"},
+		{"", "recvfrom 5 8 op=+ chain=20", "recvfrom_3_8_op=+_chain=25"},
+		{"", "sendto 3 4 op=+ chain=20", "write_4_1_op=+_chain=25"},
+		{"", "accept 2 op=+ chain=20", "recvfrom_3_8_op=+_chain=25"},
+		{"peer 1 write 200", "read 1 1 op=+ chain=20", "accept_2_op=+_chain=25"},
+	}
+	for _, h := range hops {
+		emit("obj 1 tcp", "obj 2 listener", "obj 3 packet", "obj 4 tcp", "obj 5 mpeer", strings.Repeat("peer 2 connect\n", 30), strings.Repeat("peer 3 send 4\n", 30),
+			strings.Repeat("peer 5 send 4\n", 30), "peer 4 write 100", h.setup, h.first+" then="+h.then, "pending", "poll", "poll", "peer 4 drain", "pending")
+	}
+	// 8. datagram sockets: empty datagrams complete a read with an error-like result (EOF) and must still be counted
+	for _, kind := range []string{"mpeer", "packet"} {
+		emit("obj 1 "+kind, strings.Repeat("peer 1 send 0\npeer 1 send 0\npeer 1 send 4\n", 15), "recvfrom 1 8 op=+ chain=50", "pending", "poll", "poll", "pending")
+		emit("obj 1 "+kind, "peer 1 send 4", "recvfrom 1 8 op=11", "setdisp 32", "peer 1 send 5", "recvfrom 1 8 op=12", "setdisp 0", "pending", "poll", "pending")
+		emit("obj 1 "+kind, "recvfrom 1 8 op=11", "sendto 1 4 op=12", "peer 1 recv", "close 1", "pending", "poll", "pending")
+	}
+	// 9. an adapted net.Conn whose write fails half way (deadline): the count is what was moved
+	for _, a := range []string{"write", "writeall"} {
+		emit("obj 1 adapter", "wdeadline 1 20", a+" 1 400000 op=11", "poll", "pending", "peer 1 drain", "pending")
+	}
+	// 10. a registration that fails because the descriptor was closed underneath and its number reused
+	for _, kind := range []string{"fifo", "tcp"} {
+		emit("obj 1 "+kind, "read 1 8 op=11", "pending", "sabotage 1", "write 1 8 op=12", "pending", "close 1", "pending", "obj 2 timer", "sched 2 once 1 op=13", "runpending", "pending")
+		emit("obj 1 "+kind, "sabotage 1", "read 1 8 op=11", "write 1 8 op=12", "pending", "cancel 1", "pending", "close 1", "pending")
 	}
 	emit("obj 1 listener", "obj 2 tcp", "prog 12 close 1", "prog 11 close 2", "accept 1 op=11", "read 2 4 op=12", "peer 1 connect", "peer 2 write 4", "poll", "pending", "poll", "pending")
 	emit("obj 1 packet", "obj 2 tcp", "prog 12 close 1", "prog 11 close 2", "recvfrom 1 16 op=11", "read 2 4 op=12", "peer 1 send 8", "peer 2 write 4", "poll", "pending", "poll", "pending")
